@@ -15,16 +15,15 @@ NonOrthBucket == 12       \* a compression that is not orthogonal misses by more
 
 (* one rotation: the s, p, d matrices and the sub-shell hybrids returned by the code *)
 MatClauses ==
-   LET R == MatOf(Rec.R) IN
+   LET R == MatOf(Rec.R)  Dp == DP(R, "code")  Dd == DD(R, "code") IN
    [ input_in_O3     |-> WellFormed(Rec.R) /\ IsOrthogonal(R),
      representable   |-> WellFormed(Rec.s) /\ WellFormed(Rec.p) /\ WellFormed(Rec.d) /\ \A k \in 1..Len(Rec.sub) : WellFormed(Rec.sub[k][2]),
      s_equals_spec   |-> MatOf(Rec.s) = DS(R),
-     p_equals_spec   |-> MatOf(Rec.p) = DP(R, "code"),
-     d_equals_spec   |-> MatOf(Rec.d) = DD(R, "code"),
+     p_equals_spec   |-> MatOf(Rec.p) = Dp,
+     d_equals_spec   |-> MatOf(Rec.d) = Dd,
      p_orthogonal    |-> WellFormed(Rec.p) => IsOrthogonal(MatOf(Rec.p)),
      d_orthogonal    |-> WellFormed(Rec.d) => IsOrthogonal(MatOf(Rec.d)),
-     sub_equals_spec |-> \A k \in 1..Len(Rec.sub) : Rec.sub[k][1] \in SubShells /\
-                             MatOf(Rec.sub[k][2]) = DSub(Rec.sub[k][1], DP(R, "code"), DD(R, "code")),
+     sub_equals_spec |-> \A k \in 1..Len(Rec.sub) : Rec.sub[k][1] \in SubShells /\ MatOf(Rec.sub[k][2]) = DSub(Rec.sub[k][1], Dp, Dd),
      sub_orthogonal_iff_preserved |-> \A k \in 1..Len(Rec.sub) : WellFormed(Rec.sub[k][2]) =>
                              (IsOrthogonal(MatOf(Rec.sub[k][2])) <=> Preserves(Rec.sub[k][1], R)) ]
 
